@@ -6,6 +6,46 @@ VERIF = os.path.dirname(os.path.abspath(__file__))
 
 # id -> dict(level, technique, text, note, design, engine)   (only properties whose check exists)
 CHECKS = {
+    "C04": dict(
+        level="exploration",
+        engine="mc-common",
+        technique="bounded exhaustive input enumeration (certificate grammar x every single-field change; all protocol messages over <=3 keys; every JSON re-serialisation; every U8F24 rounding boundary of phi_f) on the real hashing, conversion and JSON code",
+        text="Every certificate of an explicit grammar (genesis and all five signed entity types, u64 extremes, signer-list shapes, timestamps down to the nanosecond and at both i64 ends, adversarial strings) is paired with every single-field change from per-field alphabets and hashed by the real try_compute_hash; all of them, plus a really signed chain and tamperings of it, are sent through CertificateMessage and eleven JSON re-serialisations back to a certificate, comparing hash, signed message and verify_certificate outcome; all 1e5-1e6 protocol messages over at most 3 keys and an honest value alphabet are bucketed by digest; every U8F24 rounding boundary of phi_f in [0,1) with its f64 neighbours goes through JSON. The verdict is 'no element of this enumerated space violates the oracle'.",
+        note="Single-field changes only; one deterministic key/signature set; ancillary data only absent (uninhabited without future_snark); protocol-message values from the honest hex/decimal grammar; phi_f changes required to show only at >= one U8F24 unit independent of rounding convention. Trusted: sha2, chrono, serde_json as parser of the harness emitter, chain-builder fixtures.",
+        design="§4 C04",
+    ),
+    "C07": dict(
+        level="exploration",
+        engine="mc-common",
+        technique="bounded exhaustive input enumeration on the real registration code: all A/B component splices, radius-1/2 deviation balls around honest registrations, the full signing-evolution x announced-evolution rectangle, judged by a reference written with ed25519-dalek / kes-summed-ed25519 / blake2 / blst only",
+        text="Every registration of an explicitly generated finite space is executed on the real mithril-common / mithril-stm registration code (ProtocolKeyRegistration::register, the call sequence of the aggregator's MithrilSignerRegistrationVerifier, SignerBuilder::new) and judged by an independent reference: accepted => opcert signed by the cold key, KES signature over the key under the certified KES key within +-1 of the announced evolution and inside [0,64), valid proof of possession, pool id = blake2b-224(cold key) in the stake distribution, key not yet registered, party id derived from the cold key, recorded stake = the distribution's value; plus completeness on honest and signer-produced registrations. The space holds all splices of 10 components of two pools, all single and pairwise deviations from 10 honest bases for an outsider and for a re-signing pool operator, all 64x79 evolution pairs, 11 stake distributions and registration sequences up to length 3.",
+        note="Trusted base: ed25519-dalek non-strict verify, kes-summed-ed25519 at evolutions 0..=63, blake2, blst pairings, own bech32 encoder. The aggregator crate is not linked in this check: its verifier call sequence is mirrored (stated in the evidence); observations about the aggregator route (unverified evolutions stored, duplicate key across pools not refused at acceptance, homomorphic PoP) are reported in the evidence as observations.",
+        design="§4 C07",
+    ),
+    "C14": dict(
+        level="model_checking",
+        engine="mc-aggregator",
+        technique="explicit-state exploration by replay of the real aggregator (depth-bounded BFS with canonical-state dedup from 3 prepared states, deviation balls around nominal schedules, one-preemption operation interleavings at cfg-guarded hook points)",
+        text="The real aggregator (DependenciesBuilder container, AggregatorRuntime state machine, certifier, signer registerer, warp /register-signatures route, file-backed SQLite) is driven by an event alphabet (tick, epoch +1/+2, new immutable, registrations, honest/late/early-buffered/wrong-message/wrong-label signatures, expiry, restart). All histories up to a depth from three prepared states, all histories within 1 (thorough: also 2 on a core schedule) edit of nominal multi-epoch schedules, and every (hook-point occurrence x other operation) interleaving are replayed on a fresh node; after every event the database is checked: every stored certificate verifies to genesis under mithril-common's client verifier, was sealed on a quorum of valid signatures of the signers the reference offset rule registers for that epoch, carries that epoch's aggregate key and parameters, links to the first certificate of its epoch / of the preceding epoch, and no entity is certified twice.",
+        note="Cardano node, digester, uploader are the repository's test doubles; keys from deterministic fixtures; 3 signers; MithrilStakeDistribution + CardanoDatabase entity types; interleavings only at declared hook points, whole operations, one preemption; follower mode not explored. STM signature validity itself is C01's subject.",
+        design="§4 C14, §5",
+    ),
+    "C15": dict(
+        level="fault_enumeration",
+        engine="mc-aggregator",
+        technique="exhaustive crash-cut enumeration on the real aggregator: every occurrence of every persistence hook point along a schedule armed once (thorough: 1-deviation schedules and repeated crashes), node dropped and rebuilt on the same SQLite files",
+        text="A recording run lists every occurrence of the eight persistence points (single-signature insert, certificate insert, open-message update, end of create_certificate, artifact compute/store/after-store, buffered hand-over). Each is armed once as a crash: the operation parks there, the whole node is dropped and rebuilt on the same database, then a fair closing environment (signers resubmit every cycle, a new immutable, a new epoch) runs. After every step: every certificate verifies with its chain, at most one artifact per entity, every artifact references a stored certificate of exactly that entity; at the end the later rounds must be certified with artifacts. Thorough adds the 1-deviation ball of the schedule and second crashes after every first one.",
+        note="A crash is the loss of everything after an await point between persistence statements; torn pages / power loss are not modelled. An entity certified twice after a crash between certificate insert and open-message update is reported as an observation (C15 does not forbid it).",
+        design="§4 C15, §5",
+    ),
+    "C16": dict(
+        level="model_checking",
+        engine="mc-aggregator",
+        technique="exhaustive enumeration of all submission sequences up to length L over (label x signing key x index-list variant x route) on the real aggregator from two prepared states, database inspected after every step",
+        text="From 'open message exists' and 'not yet open (buffered path)', all sequences of <= 2 submissions over {party label j} x {signature made by i} x {index variant} x {HTTP route, message-queue processor}, and every adversarial submission at every position among the three honest ones (thorough: in every honest order), are replayed on the real aggregator, then the cycles that seal a certificate run. After each step every single_signature row must verify under the key its party registered, no signature may sit under two names, an accepted honest contribution must survive, a mismatching label must be refused by the HTTP route, and the certificate's signer list may name only parties whose own key signed.",
+        note="Party keys are the deterministic fixtures; 'verifies under the party's key' uses mithril-stm single-signature verification with that party's key and stake given explicitly (C01 checks that function). The announced won-index list is informational.",
+        design="§4 C16",
+    ),
     "C17": dict(
         level="exploration",
         engine="mc-common",
